@@ -74,4 +74,21 @@ CHECKS = {
         assumptions=["H.Inj", "WFhistory (consecutive deposit counts etc.)"],
         trusted_base=["model of package tree", "hand model of DepositContractBase (Model/Contract.lean)"],
     ),
+    "C17": dict(
+        modules=["AggkitModel.Properties.C17"],
+        scenarios=[dict(name="rangearith")],
+        generated=["BlockRange", "Limiter"],
+        leanchecker=True,
+        level_text="Proved in Lean 4: (a) about the REGENERATED translation of aggsender/types/block_range.go (uint64 wrap-around included, re-translated from the Go source on every run): "
+                   "C17_gap_sound — no gap between touching/overlapping ranges for all uint64 endpoints incl. 0 and 2^64-1; C17_gap_exact — otherwise exactly the blocks in between, non-empty; "
+                   "C17_count — CountBlocks characterised everywhere (the [0,0] sentinel and the wrapping full range stated explicitly). (b) about the hand model of Range/limitCertSize/AdaptCertificate: "
+                   "C17_range_exact (exactly the events of the requested blocks, order kept), C17_limit (never fails, same first block, ends at the LARGEST block whose prefix fits — every longer prefix is over the limit — "
+                   "exact events, over the limit only as a single block; for ANY size function, hence for the float64 EstimatedSize), C17_clamp (the last-block limiter cuts exactly at the configured block). "
+                   "Tie for (b): the real functions (limitCertSize through a verif hook) and the model, with a float64 twin of EstimatedSize, on the same inputs incl. limits equal to exact prefix sizes.",
+        level_note="Trusted: Lean kernel; goextract (the ~400-line Go->Lean translator) for part (a); model/code correspondence (generator-bounded) for part (b); IEEE-754 agreement of Lean Float and Go float64 additions.",
+        rule="boundary set^4 for ranges (0,1,2,3,2^32-1..2^32+1,2^64-3..2^64-1) exhaustively + seeded random; random event layouts over 1-14 block ranges with size limits chosen at/around the exact size of a random prefix; "
+             "distinct non-trivial = distinct gap/limit op lines",
+        assumptions=["build parameters hold only events of their own block range (what GetBridgesAndClaims returns)"],
+        trusted_base=["goextract translator", "hand model Model/CertRange.lean"],
+    ),
 }
